@@ -796,6 +796,30 @@ package vanguard
 //@   atcall[C13] (net/http.Handler).ServeHTTP: arg(1) == writer && fwdSame(arg(2), request)
 //@   atcall[C02,C13] (net/http.Handler).ServeHTTP: op.isValid ==> op.client.protocol.protocol() == op.server.protocol.protocol() && has(op.methodConf.protocols, op.client.protocol.protocol())
 
+//@ func (*operation).drainBody
+//@   dispatch (io.Reader).Read: none
+//@   dispatch (io.WriterTo).WriteTo: none
+//@   requires o != nil && o.bufferPool != nil && readerOK(body)
+//@   modifies #LIB0, $buf|
+
+// handle(): the single place where the transcoding pipeline is assembled and the service handler is
+// invoked. Established here and relied on by every responseWriter / reader method: rwFull, validER,
+// validTR (C03, C08, C09, C10, C16), exactly one dispatch or one error report (C18), and the shape of
+// the request the backend sees (C02).
+//@ func (*operation).handle
+//@   dispatch (net/http.Handler).ServeHTTP: opaque
+//@   requires validOp(o) && o.isValid && validReq(o.request) && o.writer != nil && extern(o.writer) && !typeIs(o.writer, *bytes.Buffer) && o.cancel != nil && o.request.ContentLength == -1
+//@   requires o.clientEnveloper == nil && o.serverEnveloper == nil && o.clientPreparer == nil && o.serverPreparer == nil && !o.clientReqNeedsPrep && !o.clientRespNeedsPrep && !o.serverReqNeedsPrep && !o.serverRespNeedsPrep
+//@   track served = (net/http.Handler).ServeHTTP
+//@   track reports = (*operation).reportError
+//@   track closes = (*responseWriter).close
+//@   ensures[C18] served + reports == 1 && closes == served
+//@   atcall[C18] (net/http.Handler).ServeHTTP: served == 1 && reports == 0 && closes == 0 && arg(0) == o.methodConf.handler && arg(2) == o.request
+//@   atcall[C03,C09,C16] (net/http.Handler).ServeHTTP: typeIs(arg(1), *responseWriter) && arg(1) == o.writer && rwFull(unbox(arg(1), *responseWriter)) && unbox(arg(1), *responseWriter).op == o && unbox(arg(1), *responseWriter).delegate == old(o.writer)
+//@   atcall[C08,C10] (net/http.Handler).ServeHTTP: arg(2).Body == old(o.request.Body) || (typeIs(arg(2).Body, *envelopingReader) && validER(unbox(arg(2).Body, *envelopingReader)) && unbox(arg(2).Body, *envelopingReader).rw == unbox(arg(1), *responseWriter)) || (typeIs(arg(2).Body, *transformingReader) && validTR(unbox(arg(2).Body, *transformingReader)) && unbox(arg(2).Body, *transformingReader).rw == unbox(arg(1), *responseWriter))
+//@   atcall[C02] (net/http.Handler).ServeHTTP: arg(2).ContentLength == -1 && arg(2).Proto == old(o.request.Proto) && arg(2).ProtoMajor == old(o.request.ProtoMajor)
+//@   atcall[C03,C18] (*responseWriter).close: closes == 1 && served == 1
+
 //@ func (Protocol).serverHandler
 //@   requires op != nil && op.methodConf != nil
 //@   ensures[C02] p >= 1 && p <= 4 ==> result != nil && result.protocol() == p
